@@ -27,8 +27,8 @@ SAMPLES = {
             "p1": {"fa": 1, "fb": 2, "fc": 3, "fd": 4}, "p2": {"fa": 1, "fb": 2, "fc": 3, "fe": 5}},     # 60 % / 3 shared keys
            {"a1": {"x": 1, "y": 2, "z": 3, "w": 4}, "m": {"k2": {"q": 2}}, "b": {"x": 1, "y": 5}},
            {"b": {"x": 2, "y": 5, "z": 6, "w": 7}, "when": "2020-01-01", "dict_field": {"t": 2}}],
-    "S3": [{"s": "1", "t": "true", "d": "2020-01-01T10:00:00", "l": "lit", "ключ": "ü", "u": "x\u2028y", "k\u0085ey": 1},
-           {"s": "2.5", "t": "false", "d": "2021-01-01T10:00:00", "l": "lot", "ключ": "é", "u": "x\u2029z", "k\u0085ey": 2},
+    "S3": [{"s": "1", "t": "true", "d": "2020-01-01T10:00:00", "tm": "12:30", "dy": "2020-02-03", "l": "lit", "ключ": "ü", "u": "x\u2028y", "k\u0085ey": 1},
+           {"s": "2.5", "t": "false", "d": "2021-01-01T10:00:00", "tm": "13:45:10", "dy": "2021-03-04", "l": "lot", "ключ": "é", "u": "x\u2029z", "k\u0085ey": 2},
            {"s": "3", "t": "true", "d": None, "l": "lit", "opt": ["1", "2"]}],
 }
 
@@ -165,6 +165,17 @@ def _cases(tier):
         for opts in ([], ["f_pydantic"], ["f_attrs", "s_nested"], ["f_dataclasses", "merge_exact"]):
             for out in ("stdout", "file"):
                 yield {"s": "EMPTY", "fmt": "json", "comp": [[0]], "form": variant, "arg": "m_each", "opts": opts, "out": out}
+    # (E) the entry point called twice in one process: what the second run prints must not depend on the first run's options
+    # (beyond what the statement lets a run leave behind: nothing)
+    for sname in ("S2", "S3"):
+        # That the default string registry keeps what --datetime / --disable-str-serializable-types did to it is the CLI's documented
+        # process-global state: the second run therefore names --datetime again whenever the first one did, and the first never disables.
+        for pre in (["datetime"], ["max_literals_0", "f_attrs"], ["datetime", "converters", "f_dataclasses"]):
+            for opts in (["datetime", "disable_date_time"], ["datetime"], ["f_pydantic", "datetime", "disable_int_bool"], []):
+                if "datetime" in pre and "datetime" not in opts:
+                    continue
+                yield {"s": sname, "fmt": "json", "comp": [[0], list(range(1, len(SAMPLES[sname])))], "form": "list", "arg": "m_each",
+                       "opts": opts, "out": "stdout", "pre_opts": pre}
     # (C) ini input (string-valued sections)
     for opts in ([], ["f_pydantic"], ["f_dataclasses", "converters"]):
         yield {"s": "INI", "fmt": "ini", "comp": [[0], [1]], "form": "object", "arg": "m_each", "opts": opts, "out": "stdout"}
@@ -317,7 +328,8 @@ def execute(case, force_subprocess=False):
     d = tempfile.mkdtemp(prefix="c16_")
     viol = []
     shape = sorted(set(["arg:" + case["arg"], "form:" + case["form"], "fmt:" + case["fmt"], f"files:{len(case['comp'])}"]
-                       + ["opt:" + o for o in case["opts"]] + (["out:file"] if case["out"] == "file" else [])))
+                       + ["opt:" + o for o in case["opts"]] + (["out:file"] if case["out"] == "file" else [])
+                       + ["earlier_run:" + o for o in case.get("pre_opts") or []] + (["earlier_run"] if case.get("pre_opts") is not None else [])))
     try:
         argv, refs = materialise(case, d)
         params = {}
@@ -337,7 +349,14 @@ def execute(case, force_subprocess=False):
             expected = None
             exp_exc = f"{type(e).__name__}"
         runner = clidrv.run_subprocess if force_subprocess else clidrv.run_inproc
-        status, out, err = runner(argv, d)
+        if case.get("pre_opts") is not None:
+            base_argv, _ = materialise(case, d)
+            pre_argv = list(base_argv)
+            for o in case["pre_opts"]:
+                pre_argv += OPTIONS[o][0]
+            status, out, err = clidrv.run_inproc(argv, d, pre=[pre_argv])
+        else:
+            status, out, err = runner(argv, d)
         if expected is None:
             # the library pipeline itself raises for this input (C01's business); the CLI must then fail too (C17)
             return {"obs": ["ref_raises"], "viol": [], "outcome": "reference_raises:" + exp_exc, "show": exp_exc}
